@@ -29,7 +29,7 @@ PLURALS = {"volt": "volts", "byte": "bytes", "candela": "candelas", "day": "days
            "inch": "inches", "lb": "lbs", "meter": "meters", "metre": "metres", "mile": "miles", "minute": "minutes",
            "month": "months", "point": "points", "pound": "pounds", "radian": "radians", "second": "seconds",
            "tesla": "teslas", "year": "years", "uv": "uvs"}
-LITERALS = ["3", "-3", "3.5", ".5", "1e3", "1E-2", "+2", "0", "3E+2", "2e+1", "-1.5E-3"]
+LITERALS = ["3", "-3", "3.5", ".5", "1e3", "1E-2", "+2", "0", "3E+2", "2e+1", "-1.5E-3", "3.", "-12.", "3.e2", "+.5e1", "007"]
 ERR = 1
 
 
@@ -359,7 +359,7 @@ def order_check(ctx):
 def run(ctx):
     files = core.bundled_files() if ctx.thorough else ["HED8.3.0.xml", "HED8.2.0.xml", "HED8.0.0.xml",
                                                        "HED_score_2.0.0.xml"]
-    lits = LITERALS if ctx.thorough else ["3", "-3.5", "1e3", ".5", "+2", "3E+2"]
+    lits = LITERALS if ctx.thorough else ["3", "-3.5", "1e3", ".5", "+2", "3E+2", "3.", "12.e1"]
     setups = [Setup(f) for f in files]
     ctx.rec.notes["bounds"] = {"schemas": files, "literals": lits,
                                "tags_with_units": {s.label: len(s.tags) for s in setups},
